@@ -16,10 +16,12 @@ import (
 	"context"
 	"fmt"
 	"runtime"
-		"sync"
+		"strings"
+	"sync"
 	"sync/atomic"
 	"testing"
 	"time"
+	"unsafe"
 
 	"github.com/benbjohnson/clock"
 	"github.com/libp2p/go-libp2p/core/peer"
@@ -38,6 +40,22 @@ const (
 	c17Watchdog = 20 * time.Second
 )
 
+// c17Groups spreads the cases of one model over several case groups (= Coq files evaluated in parallel); a group is
+// created when its first case arrives, so an aborted run leaves no empty group behind.
+type c17Groups struct {
+	r                    *zv.Run
+	name, header, typ, f string
+	gs                   [4]*zv.Group
+}
+
+func (c *c17Groups) get(i int) *zv.Group {
+	k := i % len(c.gs)
+	if c.gs[k] == nil {
+		c.gs[k] = c.r.Group(fmt.Sprintf("%s%d", c.name, k), c.header, c.typ, c.f)
+	}
+	return c.gs[k]
+}
+
 func c17Peer(i int) peer.ID { return peer.ID(fmt.Sprintf("p%d", i)) }
 
 func c17PeerIdx(id peer.ID) int {
@@ -52,7 +70,7 @@ func c17PeerIdx(id peer.ID) int {
 type c17Op struct {
 	Op string `json:"op"` // add remove get cooldown cleanup tick wait cancel
 	Ps []int  `json:"ps,omitempty"`
-	P  int    `json:"p,omitempty"`
+	P  int    `json:"p"`
 	D  int    `json:"d,omitempty"`
 }
 
@@ -78,7 +96,6 @@ type c17PoolRun struct {
 	p      *pool
 	mock   *clock.Mock
 	t0     time.Time
-	base   int // goroutines when quiescent
 	events []string
 	outs   []string
 
@@ -90,6 +107,7 @@ type c17PoolRun struct {
 
 	// L3 ghost state, kept by the harness from what it observed on the implementation only
 	lastCooldown map[int]time.Duration // peer -> mock time of the last putOnCooldown that took effect
+	removedSince map[int]bool          // peer -> removed after that cool-down
 	unstable     bool
 }
 
@@ -98,24 +116,53 @@ func c17NewPoolRun(r *zv.Run, seq c17Seq) *c17PoolRun {
 	mock := clock.NewMock()
 	p.cooldown.clock = mock
 	p.cleanupThreshold = seq.Thr
-	return &c17PoolRun{r: r, seq: seq, p: p, mock: mock, t0: mock.Now(), base: runtime.NumGoroutine(),
-		lastCooldown: map[int]time.Duration{}}
+	return &c17PoolRun{r: r, seq: seq, p: p, mock: mock, t0: mock.Now(),
+		lastCooldown: map[int]time.Duration{}, removedSince: map[int]bool{}}
 }
 
 func (x *c17PoolRun) now() time.Duration { return x.mock.Now().Sub(x.t0) }
 
-// quiesce waits (event-based, bounded by the watchdog) until no transient goroutine of the pool is left.
-func (x *c17PoolRun) quiesce(extra int) bool {
+// c17Transient counts the goroutines that are inside a pool's next() waiter or inside a cool-down timer callback
+// (found by function name in a full stack dump): the only goroutines the pool itself starts.
+func c17Transient() (waiters, timers int) {
+	buf := make([]byte, 1<<16)
+	for {
+		n := runtime.Stack(buf, true)
+		if n < len(buf) {
+			buf = buf[:n]
+			break
+		}
+		buf = make([]byte, 2*len(buf))
+	}
+	for _, g := range strings.Split(string(buf), "\n\n") {
+		if strings.Contains(g, "peers.(*pool).next.func") {
+			waiters++
+		}
+		if strings.Contains(g, "peers.(*timedQueue).releaseExpired") {
+			timers++
+		}
+	}
+	return
+}
+
+// quiesce waits (event-based, bounded by the watchdog) until no transient goroutine of the pool is left apart from
+// `extra` parked waiters.
+func (x *c17PoolRun) quiesce(extra int) bool { return c17Quiesce(x.r, extra, &x.unstable) }
+
+func c17Quiesce(r *zv.Run, extra int, unstable *bool) bool {
 	deadline := time.Now().Add(c17Watchdog)
-	for runtime.NumGoroutine() > x.base+extra {
+	for {
+		w, t := c17Transient()
+		if w <= extra && t == 0 {
+			return true
+		}
 		if time.Now().After(deadline) {
-			x.unstable = true
-			x.r.Count("harness", "quiesce-timeout")
+			*unstable = true
+			r.Count("harness", "quiesce-timeout")
 			return false
 		}
 		time.Sleep(20 * time.Microsecond)
 	}
-	return true
 }
 
 func (x *c17PoolRun) live() int {
@@ -236,12 +283,16 @@ func (x *c17PoolRun) offered(id peer.ID, via string) {
 	st, ok := x.p.statuses[id]
 	x.p.m.RUnlock()
 	if !ok || st != active {
-		x.violation("pool-offered-inactive", fmt.Sprintf("%s returned %s whose status is %v (present=%v)", via, id, c17Status(st), ok))
+		x.violation("pool-offered-inactive", fmt.Sprintf("%s returned %s whose status is %v (present=%v)", via, string(id), c17Status(st), ok))
 	}
 	if at, ok := x.lastCooldown[i]; ok {
 		if age := x.now() - at; age < time.Duration(x.seq.TTL)*c17Unit {
-			x.violation("pool-cooldown-early-release", fmt.Sprintf("%s returned %s %v after it was put on cool-down (ttl %v)",
-				via, id, age, time.Duration(x.seq.TTL)*c17Unit))
+			sig, how := "pool-cooldown-early-release", "a stale cool-down entry re-activated it"
+			if x.removedSince[i] {
+				sig, how = "pool-cooldown-forgotten-on-readd", "remove + add made it active again"
+			}
+			x.violation(sig, fmt.Sprintf("%s returned %s only %v after it was put on cool-down (ttl %v): %s",
+				via, string(id), age, time.Duration(x.seq.TTL)*c17Unit, how))
 		}
 	}
 }
@@ -275,7 +326,17 @@ func (x *c17PoolRun) collect() {
 	x.quiesce(0)
 }
 
-func (x *c17PoolRun) apply(op c17Op) {
+// apply runs one operation; a panic inside the pool is a violation and ends the sequence (false).
+func (x *c17PoolRun) apply(op c17Op) bool {
+	if pn := zv.Recover(func() { x.apply1(op) }); pn != "" {
+		x.violation("pool-panic:"+op.Op, fmt.Sprintf("%s panicked: %s", op.Op, pn))
+		x.unstable = true
+		return false
+	}
+	return true
+}
+
+func (x *c17PoolRun) apply1(op c17Op) {
 	p := x.p
 	x.r.Count("pool-op", op.Op)
 	switch op.Op {
@@ -284,6 +345,9 @@ func (x *c17PoolRun) apply(op c17Op) {
 		x.events = append(x.events, "EAdd "+c17IntsTerm(op.Ps))
 	case "remove":
 		p.remove(c17IDs(op.Ps)...)
+		for _, i := range op.Ps {
+			x.removedSince[i] = true
+		}
 		x.events = append(x.events, "ERemove "+c17IntsTerm(op.Ps))
 	case "get":
 		var id peer.ID
@@ -314,6 +378,7 @@ func (x *c17PoolRun) apply(op c17Op) {
 		p.putOnCooldown(id)
 		if ok && st == active {
 			x.lastCooldown[op.P] = x.now()
+			x.removedSince[op.P] = false
 			x.r.Count("pool-op", "cooldown-effective")
 		}
 		x.events = append(x.events, "ECooldown "+zv.N(uint64(op.P)))
@@ -324,6 +389,26 @@ func (x *c17PoolRun) apply(op c17Op) {
 		x.events = append(x.events, "ECleanup")
 	case "tick":
 		q := p.cooldown
+		if x.wlive {
+			// the timer releases the expired items one by one with pool.m free in between, so a parked waiter races
+			// with the second release; keep the sequential run deterministic: at most one release while a waiter is parked
+			q.Lock()
+			n := 0
+			for _, it := range q.items {
+				if x.mock.Since(it.createdAt)+time.Duration(op.D)*c17Unit >= q.ttl {
+					n++
+				}
+			}
+			q.Unlock()
+			if n >= 2 {
+				x.wcancel()
+				x.wlive = false
+				x.events = append(x.events, fmt.Sprintf("EWCancel %d", x.wid))
+				x.wid++
+				x.quiesce(0)
+				x.r.Count("pool-op", "waiter-cancelled-before-multi-release")
+			}
+		}
 		qlen := q.len()
 		x.mock.Add(time.Duration(op.D) * c17Unit)
 		// block until the timer callbacks released every expired item (bounded by the watchdog)
@@ -489,7 +574,7 @@ func c17Scripted() []c17Seq {
 	mk := func(thr int, ops ...c17Op) c17Seq { return c17Seq{Kind: "pool-seq", TTL: 10, Thr: thr, NPeers: 6, Ops: ops} }
 	return []c17Seq{
 		// cool-down, remove, re-add, cool-down again 9 s later: the stale first entry must not release the peer at 10 s
-		mk(2, a(0), cd(0), rm(0), a(0), get, tick(9), cd(0), tick(2), get, tick(7), get, tick(1), get),
+		mk(2, a(0), cd(0), rm(0), a(0), tick(9), cd(0), tick(2), get, tick(7), get, tick(1), get),
 		mk(3, a(0, 1), cd(0), rm(0), a(0), tick(9), cd(0), tick(2), get, get, tick(8), get, get),
 		// cool-down then remove and re-add: the peer must stay unavailable until the cool-down elapses
 		mk(2, a(0), cd(0), rm(0), a(0), get, tick(5), get, tick(5), get),
@@ -507,28 +592,32 @@ func c17Scripted() []c17Seq {
 }
 
 func c17Pool(t *testing.T, r *zv.Run) {
-	g := r.Group("pool", c17PoolHeader, "case", "mismatches")
+	gs := &c17Groups{r: r, name: "pool", header: c17PoolHeader, typ: "case", f: "mismatches"}
 	rng := r.Rand().Fork(1)
 
 	var replay c17Seq
 	if r.ReplayInput(&replay) && replay.Kind == "pool-seq" {
 		x := c17NewPoolRun(r, replay)
 		for _, op := range replay.Ops {
-			x.apply(op)
+			if !x.apply(op) {
+				break
+			}
 		}
-		x.finish(g, true)
+		x.finish(gs.get(0), true)
 		return
 	}
 
-	for _, seq := range c17Scripted() {
+	for i, seq := range c17Scripted() {
 		x := c17NewPoolRun(r, seq)
 		for _, op := range seq.Ops {
-			x.apply(op)
+			if !x.apply(op) {
+				break
+			}
 		}
-		x.finish(g, true)
+		x.finish(gs.get(i), true)
 		r.Count("pool-seq", "scripted")
 	}
-	n := r.N(500, 20000)
+	n := r.N(500, 12000)
 	for i := 0; i < n; i++ {
 		cr := rng.Fork(uint64(i))
 		seq := c17Seq{Kind: "pool-seq", TTL: 10, Thr: zv.Pick(cr, []int{2, 2, 2, 1, 3, 0}), NPeers: 3 + cr.Intn(4)}
@@ -537,9 +626,11 @@ func c17Pool(t *testing.T, r *zv.Run) {
 		for j := 0; j < ln; j++ {
 			op := x.genOp(cr)
 			x.seq.Ops = append(x.seq.Ops, op)
-			x.apply(op)
+			if !x.apply(op) {
+				break
+			}
 		}
-		x.finish(g, c17SeqNontrivial(x.seq.Ops))
+		x.finish(gs.get(i), c17SeqNontrivial(x.seq.Ops))
 		r.Count("pool-seq", "random")
 	}
 }
@@ -596,14 +687,18 @@ func c17Deadlock(t *testing.T, r *zv.Run) (deadlocked bool) {
 		p.putOnCooldown(b)
 		close(t2Done)
 	}()
-	// wait until T2 owns pool.m (or is already through)
-	deadline := time.Now().Add(c17Watchdog)
+	// wait until T2 owns pool.m, or queues up behind the queue mutex, or is already through (bounded: if none of
+	// these is seen within a second T1 is released anyway and the schedule simply completes)
+	deadline := time.Now().Add(time.Second)
 wait:
 	for time.Now().Before(deadline) {
 		select {
 		case <-t2Done:
 			break wait
 		default:
+		}
+		if c17MutexWaiters(&p.cooldown.Mutex) > 0 {
+			break
 		}
 		if p.m.TryLock() {
 			p.m.Unlock()
@@ -690,8 +785,12 @@ func c17Stress(t *testing.T, r *zv.Run) {
 						if id, ok := p.tryGet(); ok && wr.Chance(70) {
 							p.putOnCooldown(id)
 						}
-					case k < 85:
+					case k < 80:
 						p.putOnCooldown(c17Peer(wr.Intn(npeers)))
+					case k < 88: // the read-only entry points the manager uses
+						_ = p.has(c17Peer(wr.Intn(npeers)))
+						_ = p.peers()
+						_ = p.len()
 					default:
 						c, cn := context.WithCancel(ctx)
 						select {
@@ -783,13 +882,34 @@ func c17Stress(t *testing.T, r *zv.Run) {
 	}
 }
 
+// c17MutexWaiters reads the waiter count out of a sync.Mutex (state >> mutexWaiterShift). Only used to shorten a
+// bounded wait in the deadlock schedule; a wrong answer costs time, not correctness.
+func c17MutexWaiters(m *sync.Mutex) int32 {
+	return atomic.LoadInt32((*int32)(unsafe.Pointer(m))) >> 3
+}
+
 func TestVerifC17(t *testing.T) {
 	r := zv.Start(t, "C17")
 	defer r.Finish()
-	c17Pool(t, r)
 	if r.Replay != "" {
+		var k struct {
+			Kind string `json:"kind"`
+		}
+		r.ReplayInput(&k)
+		switch k.Kind {
+		case "pool-seq":
+			c17Pool(t, r)
+		case "mgr-seq":
+			c17Manager(t, r)
+		case "stress":
+			c17Stress(t, r)
+		default:
+			c17Deadlock(t, r)
+		}
 		return
 	}
+	c17Pool(t, r)
+	c17Manager(t, r)
 	if c17Deadlock(t, r) {
 		r.Count("stress", "skipped-pool-deadlocks")
 		return
